@@ -1,4 +1,9 @@
 # stages per property; executed by ./check.  S(name, flavour, bin, args, env, tiers, kind, timeout)
 STAGES = {
     "C07": [S("rel", "rel", "c07")],
+    "C08": [S("rel", "rel", "c08")],
+    "C09": [S("rel", "rel", "c09"),
+            S("conc3", "conc", "c09", env={"RAYON_NUM_THREADS": 3, "VERIF_SCALE": 0.5}),
+            S("conc16", "conc", "c09", env={"RAYON_NUM_THREADS": 16, "VERIF_SCALE": 0.5})],
+    "C20": [S("rel", "rel", "c20"), S("conc", "conc", "c20", env={"RAYON_NUM_THREADS": 5, "VERIF_SCALE": 0.5})],
 }
